@@ -89,6 +89,9 @@ Sem(name, srcs, arg, elems) ==
       [] name = "flatten"   -> Plain(<<MkVal("arr", s, 0)>>, <<>>)
       [] name = "unflatten" -> Plain(<<MkVal("nested", s, arg)>>, <<>>)
       [] IsConv(name)       -> Plain(<<MkVal(ConvKind[name], s, 0)>>, <<>>)
+      \* collecting a by-value iterator into an array of length `arg' (through an adaptor that hides the
+      \* exact size): succeeds exactly when the remaining length is `arg', otherwise everything is dropped
+      [] name = "collect_iter" -> IF n = arg THEN Plain(<<MkVal("arr", s, 0)>>, <<>>) ELSE Fails
       [] IsTry(name)        -> IF n = arg THEN Plain(<<MkVal(TryKind[name], s, 0)>>, <<>>) ELSE Fails
       (* iterator, by reference *)
       [] name = "next"      -> IF n = 0 THEN Res(TRUE, <<>>, None, s, {}, -1, FALSE)
